@@ -27,7 +27,7 @@ for p in props:
         na.append({"property_id":pid,"reason":(c or {}).get('reason',"contract units for this property are not built yet; no other technique is substituted")})
 m={
  "version":1,
- "setup_cmd":"cd /verif/govc && GOFLAGS=-mod=mod GOPROXY=off GOTOOLCHAIN=local go build -o ../bin/govc .",
+ "setup_cmd":"cd /verif/govc && GOFLAGS=-mod=mod GOPROXY=off go build -o ../bin/govc .",
  "hooks":{"guard":"verif","enable":"go build -tags verif (the only guarded files are comment-only zz_contracts_verif.go contract files; govc loads /repo with -tags=verif)",
           "baseline_off_cmd":BASE['cmd'],"source_commits":hook_shas,"add_only":True},
  "engines":[{"name":"govc","path":"/verif/govc","serves_properties":[c['property_id'] for c in checks],
